@@ -15,24 +15,56 @@ Definition all_finished (s : st) : bool :=
   forallb (fun t => match thr s t with None => true | Some _ => false end) (alloc_tids s).
 
 (* A presence tick's AddPresence lands after an unsubscribe removed the entry; a fresh
-   reservation of the channel hides the race from compensateRacedPresence (it checks the
-   channel name only); the fresh attempt then fails before adding presence itself. *)
-Definition stale_presence : list label :=
+   reservation of the channel exists when the tick compensates; the fresh attempt then fails
+   before adding presence itself.  Since f4ffc2fd compensateRacedPresence compares the
+   subscription generation, so the entry is removed. *)
+Definition tick_vs_resub : list label :=
   [LSpawn OConnect] ++ rep 8 (LStep 0 true) ++
   [LSpawn (OSubCli 0 op_)] ++ rep 11 (LStep 2 true) ++      (* subscribed with presence *)
   [LSpawn OTick] ++ rep 5 (LStep 4 true) ++                 (* tick: snapshot, alive, membership check; parked before AddPresence *)
   [LSpawn (OUnsubCli 0)] ++ rep 6 (LStep 6 true) ++         (* unsubscribe removes the presence entry *)
-  [LSpawn (OSubCli 0 op_); LStep 8 true] ++                 (* re-subscribe: reservation, handler pending *)
-  rep 5 (LStep 4 true) ++                                   (* the tick's add lands; compensation sees the reservation *)
-  [LStep 8 false] ++ rep 4 (LStep 8 true).                  (* the handler rejects: rollback without presence removal *)
+  [LSpawn (OSubCli 0 op_); LStep 8 true] ++                 (* re-subscribe: reservation (generation 2), handler pending *)
+  [LStep 4 true; LStep 4 true].                             (* the tick's add lands; next: compensation *)
 
-Lemma stale_presence_witness :
-  exists s, exec stale_presence init = Some s /\ no_timeout stale_presence = true /\
-            all_finished s = true /\ is_subscribed s 0 = false /\ lookup 0 (chans s) = None /\
-            pres s 0 = true.
+(* what the tick compensates, by the current rule and by the old channel-name-only rule *)
+Definition raced_items_name_only (s : st) (l : list (ch * gen)) : list ch :=
+  map fst (filter (fun p => match lookup (fst p) (chans s) with None => true | Some _ => false end) l).
+
+Definition tick_added (s : st) (t : tid) : list (ch * gen) :=
+  match thr s t with Some (TTck k) => t_added k | _ => [] end.
+
+Lemma tick_vs_resub_mid :
+  exists s, exec tick_vs_resub init = Some s /\ no_timeout tick_vs_resub = true /\
+            pres s 0 = true /\ is_subscribed s 0 = false /\ tick_added s 4 = [(0, 1)] /\
+            raced_items s (tick_added s 4) = [0] /\
+            raced_items_name_only s (tick_added s 4) = [].
 Proof.
-  destruct (exec stale_presence init) as [s|] eqn:E; [|vm_compute in E; discriminate].
+  destruct (exec tick_vs_resub init) as [s|] eqn:E; [|vm_compute in E; discriminate].
   exists s. split; auto. vm_compute in E. inversion E; subst. vm_compute. repeat split; reflexivity.
+Qed.
+
+(* ... and the run ends without a stale entry *)
+Definition tick_vs_resub_end : list label :=
+  tick_vs_resub ++ rep 4 (LStep 4 true) ++                  (* compensation removes the entry, tick ends *)
+  [LStep 8 false] ++ rep 4 (LStep 8 true).                  (* the handler rejects the re-subscribe *)
+
+Lemma tick_vs_resub_clean :
+  exists s, exec tick_vs_resub_end init = Some s /\ all_finished s = true /\
+            is_subscribed s 0 = false /\ lookup 0 (chans s) = None /\ pres s 0 = false.
+Proof.
+  destruct (exec tick_vs_resub_end init) as [s|] eqn:E; [|vm_compute in E; discriminate].
+  exists s. split; auto. vm_compute in E. inversion E; subst. vm_compute. repeat split; reflexivity.
+Qed.
+
+(* the rule itself: every added item whose channel is gone or carries another generation is compensated *)
+Theorem compensation_covers s l c g :
+  In (c, g) l ->
+  (lookup c (chans s) = None \/ exists x, lookup c (chans s) = Some x /\ c_gen x <> g) ->
+  In c (raced_items s l).
+Proof.
+  intros HI H. unfold raced_items. apply in_map_iff. exists (c, g). split; auto.
+  apply filter_In. split; auto. cbn. destruct H as [->|(x & -> & NE)]; auto.
+  destruct (N.eqb_spec (c_gen x) g); [contradiction|reflexivity].
 Qed.
 
 (* An unsubscribe's RemovePresence lands after the re-subscribe's AddPresence: the connection is
@@ -59,11 +91,19 @@ Proof.
   exists s'. split; auto. vm_compute in E. inversion E; subst. vm_compute. split; reflexivity.
 Qed.
 
-Theorem stale_presence_refuted :
+Theorem name_only_compensation_refuted :
   exists sched s,
-    exec sched init = Some s /\ no_timeout sched = true /\ all_finished s = true /\
-    is_subscribed s 0 = false /\ lookup 0 (chans s) = None /\ pres s 0 = true.
-Proof. destruct stale_presence_witness as (s & H). exists stale_presence, s. exact H. Qed.
+    exec sched init = Some s /\ no_timeout sched = true /\ pres s 0 = true /\ is_subscribed s 0 = false /\
+    raced_items s (tick_added s 4) = [0] /\ raced_items_name_only s (tick_added s 4) = [].
+Proof.
+  destruct tick_vs_resub_mid as (s & E & NT & P & S & _ & R1 & R2). exists tick_vs_resub, s. auto.
+Qed.
+
+Theorem tick_vs_resub_no_stale :
+  exists sched s,
+    exec sched init = Some s /\ all_finished s = true /\
+    is_subscribed s 0 = false /\ lookup 0 (chans s) = None /\ pres s 0 = false.
+Proof. destruct tick_vs_resub_clean as (s & H). exists tick_vs_resub_end, s. exact H. Qed.
 
 Theorem transient_absence_ex :
   exists sched s,
